@@ -294,7 +294,7 @@ def run(ctx):
         cfg = CFG(b)
         tr = Tracer(b)
         from .C20 import debug_only_blocks
-        dbg = debug_only_blocks(b, cfg)
+        dbg = debug_only_blocks(b, cfg, f)
         for bi in sorted(cfg.reach):
             bb = b.blocks[bi]
             if bb['cleanup']:
@@ -392,6 +392,15 @@ def run(ctx):
                                 and not s2['rv']['a'].get('p') and s2['place']['l'] not in flow:
                             flow.add(s2['place']['l'])
                             grew = True
+                    # an error-decorating wrapper hands the same Result on (`.map_err(|e| { warn!(..); e })`, `.context(..)`)
+                    t2 = bb2['term']
+                    if t2['t'] == 'call' and t2['args'] and t2['args'][0].get('l') in flow and not t2['args'][0].get('p') and \
+                            not t2['dest']['p'] and t2['dest']['l'] not in flow and \
+                            call_matches(t2, 'Result::<T, E>::map_err', 'Context::context', 'Context::with_context',
+                                         'Context<T, E>>::context', 'Context<T, E>>::with_context',
+                                         'for std::result::Result<T, E>>::context', 'for std::result::Result<T, E>>::with_context'):
+                        flow.add(t2['dest']['l'])
+                        grew = True
             uses = [u for l2 in flow for u in uses_of_local(fo, l2)]
             okp = 0 in flow or any(u[2] == 'callarg' and call_matches(fo.blocks[u[0]]['term'], 'Try>::branch', 'Try::branch')
                                    for u in uses)
@@ -551,7 +560,11 @@ def transition_lemmas(ctx, fo):
         rows = (0, 1) if outer else (li,)
         for row in rows:
             sx = SymEx(f)
-            frame = {item: STRUCT('std::option::Option', ('Some', 1), [('0', SYM('c'))])}
+            payload = SYM('c')
+            if '(usize, char)' in str(d['next_term']['dest'].get('ty', '')) or 'enumerate' in d['chain']:
+                # `for (offset, c) in component.chars().enumerate()`: the character is the second component of the item
+                payload = STRUCT('(tuple)', None, [('0', SYM('offset')), ('1', SYM('c'))])
+            frame = {item: STRUCT('std::option::Option', ('Some', 1), [('0', payload)])}
             for l in state:
                 frame[l] = SYM('v%d' % l)
             if mat_l is not None:
